@@ -233,6 +233,26 @@ def probes(rep, r, n):
                     if not same(t3[col][i], t1[col][0], rel=0):
                         rep.violation('batch-ne-single', f'{col}: batch row {i} {t3[col][i]} != single {t1[col][0]}',
                                       sig_case(c))
+            # area_overlap / do_photometry of a multi-position aperture of the case's own class == one position at a time, with
+            # positions that share their sub-pixel phase (integer offsets) and a masked pixel under the first one
+            shape_kw = {nm: getattr(ap, nm) for nm in ap._params if nm != 'positions'}
+            posn = [(c['p']['cx'], c['p']['cy']), (c['p']['cx'] + 2.0, c['p']['cy'] - 1.0), (c['p']['cx'] - 1.0, c['p']['cy'] + 2.0),
+                    (c['p']['cx'] + 0.5, c['p']['cy'])]
+            mk = np.zeros((c['ny'], c['nx']), bool) if c['mask'] is None else c['mask'].copy()
+            yy0, xx0 = int(round(c['p']['cy'])), int(round(c['p']['cx']))
+            if 0 <= yy0 < c['ny'] and 0 <= xx0 < c['nx']:
+                mk[yy0, xx0] = True
+            apn = type(ap)(posn, **shape_kw)
+            an = np.asarray(apn.area_overlap(data, mask=mk, method=c['method'], subpixels=c['sub']), float)
+            sn = np.asarray(apn.do_photometry(data, mask=mk, method=c['method'], subpixels=c['sub'])[0], float)
+            for i, ps in enumerate(posn):
+                ap1 = type(ap)(ps, **shape_kw)
+                a1 = float(np.asarray(ap1.area_overlap(data, mask=mk, method=c['method'], subpixels=c['sub'])))
+                s1_ = float(np.asarray(ap1.do_photometry(data, mask=mk, method=c['method'], subpixels=c['sub'])[0][0]))
+                if not same(an[i], a1, rel=0) or not same(sn[i], s1_, rel=0):
+                    rep.violation('batch-ne-single:area/sum', f'{c["kind"]}: position {i} of a multi-position aperture gives area {an[i]}, sum {sn[i]}; '
+                                  f'alone it gives area {a1}, sum {s1_}', dict(sig_case(c), positions=posn))
+                    break
             ann = CircularAnnulus(pos, 1.0, 2.5)
             tl = aperture_photometry(c['data'], [ap3, ann], error=err, mask=c['mask'], method=c['method'],
                                      subpixels=c['sub'])
